@@ -39,6 +39,7 @@ func TestMain(m *testing.M) {
 			"One octree case in sixteen repeats its queries from 2-6 goroutines on the same tree (class shared-tree/concurrent-queries; ElementsIntersectingRay excluded there, it collects into per-node buffers by design). Every element's own closest point is judged against the geometry of the primitive. " +
 			"Sub-check octree-large: 181..20 000 recipe-built elements (grid or 1..27 clusters; automatic depths 2..5). When every coordinate of set and query point is a multiple of 1/128 the within-range decision is judged without a band (class withinrange/exact-arithmetic-no-band; radii equal to an element's box distance are drawn: withinrange/element-exactly-on-the-radius).",
 		Assumptions: []string{
+			"sub-check bvh-spheres: 1..9 renderer spheres, static or moving linearly, hierarchy built for a drawn time window (NewBVHTree and the octree-backed NewBVH), rays aimed at and past the spheres with a time inside the window, against HitList; non-trivial = a hit with two or more spheres; rays grazing a sphere within 1e-6 are not judged (counted); non-linear motion is outside the documented domain of Sphere.BoundingBox",
 			"element sets are non-empty (an empty mesh yields a nil tree) and all coordinates, radii and ray parameters are finite; ray directions are non-zero; ray range min < max",
 			"ElementsWithinRange and ElementsContainingPoint are specified on element bounding boxes (as implemented and as their callers use them), the scan applies the same predicate to Element.BoundingBox()",
 			"don't-care band: an element whose box is within 1e-9*scale (scale = 1 + largest coordinate magnitude of set and query) of the containing / within-range decision boundary is not judged (parent cells re-centred by SetMinMax can end one ulp short of an element's own box: a tie in the sense of the statement)",
